@@ -278,6 +278,9 @@ class Parser:
 
         for num, self.line in enumerate(lines):
             self.process_line(num != len(lines) - 1)
+        if self.set_line:
+            # a SET statement on the last line of the script
+            self.process_set()
         if self.comments:
             self.tables.append({"comments": self.comments})
         return self.tables
